@@ -73,6 +73,9 @@ def make_lm(V, table, symbolic):
     return TableLM
 
 
+_LSE_CACHE = {}
+
+
 class _BeamBase(Harness):
     functions = ["pydrobert.torch._decoding.BeamSearch.forward", "pydrobert.torch._decoding.BeamSearch._to_width",
                  "pydrobert.torch._decoding.beam_search_advance", "pydrobert.torch._lm.ExtractableSequentialLanguageModel (subclassed by the harness)"]
@@ -118,7 +121,12 @@ class _BeamBase(Harness):
             if len(ent) == 3:
                 xs = [x for x, z in zip(xs, ent[2]) if not z3.is_true(model.eval(z, model_completion=True))]
             m = max(xs)
-            cons.append(l == z3.RealVal(Fraction(m + math.log(sum(math.exp(x - m) for x in xs))).limit_denominator(10 ** 9)))
+            # rows with the same logit differences get exactly the same correction term, so that scores which are mathematically tied
+            # (e.g. the same log-probabilities met in a different order) are tied in the pinned model too and are excluded as ties
+            key = tuple(sorted(round(x - m, 6) for x in xs))
+            if key not in _LSE_CACHE:
+                _LSE_CACHE[key] = Fraction(math.log(sum(math.exp(d) for d in key))).limit_denominator(10 ** 9)
+            cons.append(l == z3.RealVal(Fraction(m) + _LSE_CACHE[key]))
         return cons
 
     @staticmethod
@@ -419,6 +427,6 @@ def tasks(tier):
                                     continue
                                 ts.append(task(PROP, M_, "BeamSearchH", V=V, width=W, eos=eos, finish_all=fa, max_iters=T, N=N,
                                                complete=bool(W >= nc and (fa or eos is None) and T > 0)))
-                            if T >= 1 and W <= 4:
+                            if T >= 1 and W <= 4 and not (eos is None and T >= 3 and W >= 3):   # excluded: violation query unknown after 900 s (measured)
                                 ts.append(task(PROP, M_, "BeamBatchH", V=V, width=W, eos=eos, finish_all=fa, max_iters=T))
     return ts
